@@ -90,7 +90,10 @@ def run(chk):
     chk.rule = ("seeded cases from tools/gen_prp.py over the 9 instantiated pairs {C,NNC polyhedron, Grid, Rational_Box, BD_Shape<mpq>} x the 5 policies "
                 "(Direct, Smash, Constraints, Congruences, Shape_Preserving): (shrink) a grid congruence against a component bounded in its direction, "
                 "range width drawn from {<m, =m, <2m, =2m, >2m, 0} with closed/open ends, rational bounds, negative values, both call directions, then "
-                "reduce(); (reduce) arbitrary components incl. inconsistent pairs and empties, explicit + implicit reduce(), reduce() again; (ops) "
+                "reduce(); (period) grids with NON-INTEGRAL periods (k*x_i = r mod m, k not dividing m, mixed congruences with non-unit coefficients) against "
+                "polyhedra / boxes whose rational bounds lie strictly between two grid hyperplanes, around exactly one, exactly on them (open/closed), over "
+                "several periods or one-sided, below / across / above zero, with octagonal and general constraints in 2-3 dimensions, mostly under the "
+                "Shape_Preserving and Congruences policies; (reduce) arbitrary components incl. inconsistent pairs and empties, explicit + implicit reduce(), reduce() again; (ops) "
                 "histories of transformers and predicates over two objects. A case is distinct by its text; non-trivial when at least one judged "
                 "event (reduction step, shrink outcome, image inclusion, definite answer) was decided on it")
     chk.trusted += [
@@ -107,7 +110,9 @@ def run(chk):
         "the arithmetic relies on (maximize/minimize of the second component) are compared with the exact supremum/infimum, and the premise "
         "(first component inside its own congruence) is checked; frequency() of grids is not checked here",
         "whenever a grid with a proper congruence takes part, 'no point of the intersection lost' / 'image contained' / 'answer true of the intersection' "
-        "are decided on an enumeration of lattice points in a window (sampling); a violation found this way is definite (witness point checked by "
+        "are decided on an enumeration of lattice points (sampling) aimed at the constraints: a 1-parameter slice of the grid is enumerated "
+        "EXHAUSTIVELY inside the bounds when they are finite (counted in sampled_slices_enumerated_exhaustively), otherwise a window centred at the "
+        "lattice point nearest to the centre of the constraints' bounding box; a violation found this way is definite (witness point checked by "
         "mem_con_b / mem_pcg_b, proved exact), absence of a witness is not a proof. Component-vs-old-self inclusions are always exact.",
         "generalized_affine_image, strictly_contains, is_discrete, constrains, affine_dimension, is_topologically_closed, equals are executed (their implicit "
         "reductions are judged) but their results are not judged",
@@ -159,6 +164,8 @@ def run(chk):
     chk.extra["verified_checks"] = stat.get("checks", 0)
     chk.extra["checks_decided_by_sampling"] = stat.get("sampled", 0)
     chk.extra["sample_points_tested"] = stat.get("points", 0)
+    chk.extra["sampled_slices_enumerated_exhaustively"] = cov.get("exhaustive-1dim-slices", 0)
+    chk.extra["period_family_cases"] = len([c for c in byid if c.startswith("p")])
     chk.extra["pair_histogram"] = {k[5:]: v for k, v in sorted(cov.items()) if k.startswith("pair:")}
     chk.extra["policy_histogram"] = {k[7:]: v for k, v in sorted(cov.items()) if k.startswith("policy:")}
     chk.extra["operation_histogram"] = {k[3:]: v for k, v in sorted(cov.items()) if k.startswith("op:")}
